@@ -495,7 +495,7 @@ def has_quantifier(e):
     return False
 
 
-def discharge_all(report, timeout_ms=10000, canon=True, budget_s=None):
+def discharge_all(report, timeout_ms=10000, canon=True, budget_s=None, recheck=False):
     """pass 1: every obligation once (half budget).  pass 2: the unknown ones with seeds / small-instance model search / cvc5;
     model search stops after the first refutation of the unit (one failing obligation is enough to report, the rest stay
     `unknown`), and the whole second pass respects a wall-clock budget."""
@@ -525,6 +525,19 @@ def discharge_all(report, timeout_ms=10000, canon=True, budget_s=None):
         solve.second_pass(ob, extra_hyps=hy(ob), timeout_ms=timeout_ms, refute=True)
         if ob.result == 'refuted':
             refuted = True
+    if recheck:
+        # thorough tier: every obligation z3 proved is put to the second back end (cvc5) as well.  cvc5 `unsat` = two independent solvers
+        # agree; `unknown` (frequent with quantifiers / recursive definitions) says nothing; `sat` is a disagreement between the back ends:
+        # the obligation is then NOT counted as proved (undecided, never a violation) and the disagreement is reported.
+        t2 = time.time()
+        for ob in report.obligations:
+            if ob.result != 'proved' or ob.backend != 'z3' or time.time() - t2 > 600:
+                continue
+            s2 = z3.Solver(); s2.add(*hy(ob)); s2.add(*ob.hyps); s2.add(z3.Not(ob.goal))
+            res, dt = solve.cvc5_check(s2, 3000)
+            ob.extra['recheck'] = {'unsat': 'agree', 'sat': 'DISAGREE'}.get(res, 'unknown')
+            if res == 'sat':
+                ob.result = 'unknown'; ob.backend = 'z3 proved, cvc5 reports a counter-model: back ends disagree'
     report.solve_s = time.time() - t0
     return report
 
